@@ -33,7 +33,8 @@ Anchors (all under `liquid/`), mirrored **as written**:
   otherwise `copy(block_scope=True)`: globals = `{"block": …}` ▹ the parent's whole scope, `_isolated_globals` inherited,
   `disabled_tags` inherited); `builtin/tags/tablerow_tag.py` without `cols`.  `block.super` and `required` are not
   modelled (C18 owns block resolution); a `StopRender` is the flag `St.stopped`.
-* `Frame.sz` is asserted to be `scope.size()` at every `extend` (`Err.sizeMismatch`, proved unreachable).
+* `Frame.sz` is asserted to be `scope.size()` at every `extend`: a mismatch is the model error `Err.sizeMismatch`, which
+  the driver reports and no stream has ever produced (the theorem that it is unreachable is not done yet).
 
 STRICT mode: the first error aborts the render.  Filters, `limit/offset/reversed`, `break/continue`, autoescape
 and the loop-iteration / namespace / output limits are not in this model (C06, C07, C12, C13, C25 own them).
@@ -176,7 +177,7 @@ inductive Err where
   | undefined        -- UndefinedError (StrictUndefined only)
   | inheritance      -- TemplateInheritanceError (two extends tags, duplicate block names, circular extends)
   | assertion        -- AssertionError (`assert base`: an extends tag rendered while `context.template` has none)
-  | sizeMismatch     -- MODEL ASSERTION, never raised (`LiquidVerif.C14.size_agrees`): `Frame.sz` ≠ `scope.size()`
+  | sizeMismatch     -- MODEL ASSERTION: `Frame.sz` ≠ `scope.size()` at an `extend` (never observed; see the header)
   deriving Repr, DecidableEq
 
 /-- `ReadOnlyChainMap.__getitem__` -/
